@@ -122,7 +122,7 @@ def runOp {σ : Type} (w : World σ) (cfg : Cfg) (fuel : Nat) (op : String) (s :
 def parseCfg (args : List String) : Cfg :=
   { mode := if arg args "mode" = "w" then .wrapping else .checked,
     rmbx := nat! (arg args "rmbx"), wmbx := nat! (arg args "wmbx"),
-    hasMailbox := arg args "mbx" != "0", assertEmergency := Gen.Coe.hasEmergencyAssert, pre := [], post := [] }
+    hasMailbox := arg args "mbx" != "0", pre := [], post := [] }
 
 /-- The scripted (hostile) device. -/
 def handleScript (args : List String) (script : String) : String :=
